@@ -295,8 +295,17 @@ pub fn families() -> Vec<Box<dyn Family>> {
             |idx, cfg, out| {
                 let seqs = gen::all_seqs(3, if cfg.tiny { 2 } else { 4 });
                 let (a, b) = gen::pair_of(seqs, idx);
-                let sa: Vec<String> = a.iter().map(|x| format!("l{}\n", x)).collect();
-                let sb: Vec<String> = b.iter().map(|x| format!("l{}\n", x)).collect();
+                // two token maps: distinct lines, and CALLER-SUPPLIED tokens whose concatenations can coincide
+                // with different boundaries ("a" + "b" against "ab"): the bytes of a hunk say nothing about its ops
+                let map = |x: &u8| -> String {
+                    if idx % 2 == 0 {
+                        format!("l{}\n", x)
+                    } else {
+                        ["a", "b", "ab"][*x as usize % 3].to_string()
+                    }
+                };
+                let sa: Vec<String> = a.iter().map(map).collect();
+                let sb: Vec<String> = b.iter().map(map).collect();
                 let ra: Vec<&str> = sa.iter().map(|s| s.as_str()).collect();
                 let rb: Vec<&str> = sb.iter().map(|s| s.as_str()).collect();
                 out.sample(|| format!("old={:?} new={:?} x algorithms x radii 0..=6", a, b));
